@@ -65,7 +65,9 @@ func SliceAppend(src Slice, data unsafe.Pointer, num, etSize int) Slice {
 	}
 	oldLen := src.len
 	src = GrowSlice(src, num, etSize)
-	c.Memcpy(c.Advance(src.data, oldLen*etSize), data, uintptr(num*etSize))
+	// the appended elements may come from the destination's own backing array
+	// (append(s[:i], s[j:]...)), so the ranges can overlap: memmove, not memcpy
+	c.Memmove(c.Advance(src.data, oldLen*etSize), data, uintptr(num*etSize))
 	return src
 }
 
